@@ -11,7 +11,7 @@ Notation map := (map K V).
 Lemma keeps_insert_ii_for_full k v u : keeps (insert_ii_for_full E k v u).
 Proof.
   intros w Hw. unfold insert_ii_for_full. apply wp_bind.
-  apply wp_on_unwind_frame; [apply frame_unwind_pair|].
+  apply wp_on_unwind_frame; [apply frame_unwind_args|].
   eapply wp_mono; [apply scan_spec; [intros; apply frame_test_k | exact Hw] | |]; cbn beta.
   - intros [i|] w' [Hs Hi].
     + destruct (WF_live _ _ Hw Hi) as [p Hp].
@@ -23,7 +23,7 @@ Proof.
       * apply wp_bind. eapply wp_p_replace; [rewrite Hs; exact Hp|].
         apply wp_ret. unfold inv_post. simp_w. rewrite Hs.
         split; [apply WF_set_slot_some; auto | apply cap_set_slot].
-    + apply wp_bind. apply wp_frame; [apply frame_drop_pair | |].
+    + apply wp_bind. apply wp_frame; [apply frame_drop_args | |].
       * intros _ w'' Hs'. apply wp_ret. apply inv_post_refl; [exact Hw | congruence].
       * intros w'' Hs'. apply inv_post_refl; [exact Hw | congruence].
   - intros w' Hs w'' Hs''. apply inv_post_refl; [exact Hw | congruence].
@@ -133,7 +133,7 @@ Lemma keeps_insert_i k v u w :
   wp (insert_i E debug k v u) (fun _ => inv_post w) (inv_post w) w.
 Proof.
   intros Hw Hd. unfold insert_i. apply wp_bind. apply wp_get_len. apply wp_bind.
-  apply wp_on_unwind_frame; [apply frame_unwind_pair|].
+  apply wp_on_unwind_frame; [apply frame_unwind_args|].
   eapply wp_mono; [apply (insert_i_loop_spec k (len (self w)) 0 w Hw); [lia | exact Hd] | |]; cbn beta.
   - intros [target existing] w'. cbn [fst snd]. destruct existing as [[old_k old_v]|].
     + intros (Ht & Hl & Hc & Hsl).
@@ -380,12 +380,59 @@ Proof.
 Qed.
 
 (* ---------- 9. clone_from_src ---------- *)
+Lemma unwind_pair_nopanic p (w : world) :
+  wp (unwind_pair E p) (fun _ w' => self w' = self w) (fun _ => False) w.
+Proof.
+  unfold unwind_pair. apply wp_bind. apply wp_emit.
+  apply wp_bind. apply wp_cbd. intros bk s1.
+  apply wp_bind. apply wp_cbd. intros bv s2.
+  apply wp_ret. reflexivity.
+Qed.
+
+(* destructors running while unwinding: slots [i, i+n) must be live; never panics *)
+
+Lemma unwind_range_spec n : forall i w,
+  (forall j, i <= j < i + n -> live (self w) j) ->
+  wp (unwind_range E n i)
+     (fun _ w' => len (self w') = len (self w) /\ cap (self w') = cap (self w) /\
+        (forall j, j < i \/ i + n <= j -> nth_error (slots (self w')) j = nth_error (slots (self w)) j) /\
+        (forall j, i <= j < i + n -> nth_error (slots (self w')) j = Some None))
+     (fun _ => False) w.
+Proof.
+  induction n as [|n IH]; intros i w Hl; cbn [unwind_range].
+  - apply wp_ret. split; [reflexivity|]. split; [reflexivity|]. split; [reflexivity|]. intros j Hj; lia.
+  - destruct (Hl i ltac:(lia)) as [p Hp].
+    assert (Hic : i < cap (self w)) by (apply live_lt_cap; exists p; exact Hp).
+    apply wp_bind. eapply wp_p_read; [exact Hp|].
+    apply wp_bind. eapply wp_mono; [apply unwind_pair_nopanic | |]; cbn beta.
+    + intros _ w' Hs.
+      eapply wp_mono; [apply IH | |]; cbn beta.
+      * intros j Hj. rewrite Hs. cbn [with_self self]. apply live_set_slot_neq; [lia | apply Hl; lia].
+      * intros _ w'' (H1 & H2 & H3 & H4). rewrite Hs in H1, H2, H3.
+        cbn [with_self self set_slot_m len slots] in H1, H2, H3.
+        split; [exact H1|]. split; [rewrite H2; apply cap_set_slot|]. split.
+        -- intros j Hj. rewrite H3 by lia. apply nth_error_upd_neq. lia.
+        -- intros j Hj. destruct (Nat.eq_dec i j) as [<-|Hn].
+           ++ rewrite H3 by lia. apply nth_error_upd_eq. exact Hic.
+           ++ apply H4. lia.
+      * auto.
+    + intros w' [].
+Qed.
+
+Lemma unwind_map_safe w :
+  WF (self w) -> wp (unwind_map E) (fun _ _ => True) (fun _ => False) w.
+Proof.
+  intros [Hl Hs]. unfold unwind_map. apply wp_bind. apply wp_get_len.
+  eapply wp_mono; [apply unwind_range_spec | |]; cbn beta; auto.
+  intros j Hj. apply Hs. lia.
+Qed.
+
 Lemma wp_finally_drop {A} (c : M A) (Qn : A -> world -> Prop) w :
   wp c Qn (fun w' => WF (self w')) w -> wp (finally_drop E c) Qn (fun _ => True) w.
 Proof.
   unfold wp at 1 2. unfold finally_drop. destruct (c w) as [a w'|w'|]; auto.
-  intros H. pose proof (drop_map_safe E w' H) as Hd. unfold wp in Hd.
-  destruct (drop_map E w'); auto.
+  intros H. pose proof (unwind_map_safe w' H) as Hd. unfold wp in Hd.
+  destruct (unwind_map E w'); auto.
 Qed.
 
 Lemma frame_clone_pair p : frame (clone_pair E p).
@@ -393,7 +440,7 @@ Proof.
   unfold clone_pair. apply frame_bind; [apply frame_emit|]. intros _.
   apply frame_bind; [apply frame_cbo|]. intros k'.
   apply frame_bind; [apply frame_emit|]. intros _.
-  apply frame_bind; [apply frame_cbo|]. intros v'. apply frame_ret.
+  apply frame_bind; [apply frame_on_unwind; [apply frame_unwind_key | apply frame_cbo]|]. intros v'. apply frame_ret.
 Qed.
 
 Lemma clone_loop_spec src : WF src -> forall n i w,
